@@ -42,6 +42,35 @@ fn emit(out: &mut Out, fi: usize, ch: usize, p: usize, values: &[u32]) {
     out.case(12, &args, &obs);
 }
 
+/// tag 54: the chunks the uncompressed encoders cut an image into (for_each_chunk on contiguous and padded views, the
+/// per-row chunks of the sub-sampled encoder) against model/EncChunks.v
+fn chunk_traces(out: &mut Out, thorough: bool, rng: &mut Rng) {
+    let names = ["R8G8B8A8_UNORM", "B5G6R5_UNORM", "R16G16B16A16_FLOAT", "R32G32B32A32_FLOAT", "R8_UNORM", "R10G10B10A2_UNORM", "R9G9B9E5_SHAREDEXP", "B4G4R4A4_UNORM",
+        "YUY2", "UYVY", "Y210", "Y216", "R8G8_B8G8_UNORM", "G8R8_G8B8_UNORM", "R1_UNORM", "AYUV", "Y410"];
+    for name in names {
+        let Some(fi) = FORMATS.iter().position(|(_, n)| *n == name) else { continue; };
+        let format = FORMATS[fi].0;
+        let bw = match PixelInfo::from(format) { PixelInfo::Block(b) => b.size().0 as usize, _ => 1 };
+        for k in 0..(if thorough { 40 } else { 10 }) {
+            let w = match k % 5 { 0 => 1 + rng.below(40) as u32, 1 => 500 + rng.below(30) as u32, 2 => 1020 + rng.below(10) as u32, 3 => 1 + rng.below(3000) as u32, _ => 512 * (1 + rng.below(3) as u32) };
+            let h = 1 + rng.below(if w > 600 { 3 } else { 9 }) as u32;
+            let (ch, p) = (rng.below(4) as usize, rng.below(3) as usize);
+            let pitch_extra = if k % 2 == 0 { 0 } else { 1 + rng.below(40) as usize };
+            let values: Vec<u32> = (0..w as usize * h as usize * CHANNELS[ch].count() as usize).map(|_| match p { 0 => rng.below(256) as u32, 1 => rng.below(65536) as u32, _ => (rng.below(1 << 20) as f32 / (1u32 << 20) as f32).to_bits() }).collect();
+            dds::verif_hooks::start_block_trace();
+            let r = encode_values(format, ch, p, &values, w, h, pitch_extra);
+            let trace = dds::verif_hooks::take_block_trace();
+            if r.is_none() || trace.is_empty() { continue; }
+            let (kind, n, contiguous) = if trace[0][0] == 4 { (0i128, trace[0][1] as i128, trace[0][2] as i128) } else { (1, 512, 0) };
+            let events: &[Vec<usize>] = if kind == 0 { &trace[1..] } else { &trace[..] };
+            let mut obs: Vec<i128> = Vec::new();
+            for e in events { obs.push(e.len() as i128); obs.extend(e.iter().map(|&v| v as i128)); }
+            out.count(if kind == 0 { "chunk_trace_for_each_chunk" } else { "chunk_trace_subsample" }); out.count(if pitch_extra == 0 { "chunk_trace_contiguous" } else { "chunk_trace_padded" });
+            out.case(54, &[kind, n, contiguous, w as i128, h as i128, bw as i128], &obs);
+        }
+    }
+}
+
 fn f32_inputs(rng: &mut Rng) -> Vec<u32> {
     let mut v: Vec<u32> = vec![0, 0x8000_0000, 0x3F80_0000, 0xBF80_0000, 0x3F00_0000, 0x3EFF_FFFF, 0x3F00_0001, 0x3F7F_FFFF, 0x3F80_0001, 0x7F80_0000, 0xFF80_0000, 0x7FC0_0000,
         0x0000_0001, 0x007F_FFFF, 0x0080_0000, 0x7F7F_FFFF, 0xFF7F_FFFF, 0x477F_E000, 0x4780_0000, 0x477F_8000, 0x4000_0000, 0x3FA0_6666, 0xBF40_C0C1, 0x3FA0_6000, 0x3380_0000, 0x3880_0000, 0x387F_C000, 0x3300_0000, 0x3300_0001, 0x32FF_FFFF];
@@ -203,6 +232,7 @@ pub fn run(out: &mut Out, tier: &str, seed: u64, corpus: Option<&str>) {
     }
     if tier == "replay" { return; }
     oracles(out, thorough, &mut rng);
+    chunk_traces(out, thorough, &mut rng);
     let fin = f32_inputs(&mut rng);
     macro_formats(out, thorough, &mut rng, &fin);
     for fi in 0..35usize {
